@@ -27,6 +27,11 @@ func (a AnonymousFlattenMangler) Mangle(sf reflect.StructField) ([]reflect.Struc
 	// anonymous/embedded fields can only be interfaces, pointers and structs
 	switch sf.Type.Kind() {
 	case reflect.Pointer:
+		if sf.Type.Elem().Kind() != reflect.Struct {
+			// an embedded pointer to a non-struct type (e.g. a named
+			// scalar): nothing to promote, leave the field as it is.
+			return []reflect.StructField{sf}, nil
+		}
 		// recurse with the pointer stripped off
 		sfInner := sf
 		sfInner.Type = sf.Type.Elem()
@@ -93,6 +98,10 @@ func (a AnonymousFlattenMangler) Unmangle(sf reflect.StructField, fvs []FieldVal
 	}
 	switch sf.Type.Kind() {
 	case reflect.Pointer:
+		if sf.Type.Elem().Kind() != reflect.Struct {
+			// not a pointer to a struct: Mangle left the field alone
+			return fvs[0].Value, nil
+		}
 		// It's a pointer. check for nil; strip off the pointer and recurse
 		msf := sf
 		msf.Type = sf.Type.Elem()
